@@ -28,6 +28,8 @@ fn planes(w: usize, h: usize, n: usize, maxv: i32, salt: usize) -> Vec<Channel> 
 }
 
 pub struct FrameDesc {
+    pub alt_tree: Option<Node>,
+    pub local_tree: bool,
     pub fh: FrameHeader,
     pub channels: Vec<Channel>,
     pub tree: Node,
@@ -50,6 +52,8 @@ fn encode_frame(img: &ImageHeader, d: &FrameDesc) -> Vec<u8> {
     let mut spec = ModularFrameSpec::new(d.fh.clone(), coded);
     spec.transforms = trs;
     spec.tree = d.tree.clone();
+    spec.global_tree = !d.local_tree;
+    spec.alt_tree = d.alt_tree.clone();
     spec.code = CodeOpts { use_prefix: !d.ans, ..Default::default() };
     if d.toc_rev {
         let probe = write_modular_frame(img, &spec);
@@ -62,7 +66,7 @@ fn encode_frame(img: &ImageHeader, d: &FrameDesc) -> Vec<u8> {
 
 fn simple_desc(img: &ImageHeader, w: usize, h: usize, maxv: i32, salt: usize) -> FrameDesc {
     let n = img.num_colour_channels() + img.ec_info.len();
-    FrameDesc { fh: FrameHeader::modular_lossless(img), channels: planes(w, h, n, maxv, salt), tree: Node::leaf(5), ans: false, transforms: vec![], toc_rev: false }
+    FrameDesc { alt_tree: None, local_tree: false, fh: FrameHeader::modular_lossless(img), channels: planes(w, h, n, maxv, salt), tree: Node::leaf(5), ans: false, transforms: vec![], toc_rev: false }
 }
 
 fn item(name: &str, img: &ImageHeader, frames: Vec<Vec<u8>>, keyframes: usize) -> Item {
@@ -107,7 +111,7 @@ pub fn multi_frame(name: &str, w: u32, h: u32, alpha_bits: u32, descs: &[(Option
         let (fw, fhh) = fh.frame_size(&img);
         let mut ch = planes(fw as usize, fhh as usize, 3, 255, i);
         ch.push(tex(fw as usize, fhh as usize, 3, (1 << alpha_bits) - 1, i + 5));
-        let d = FrameDesc { fh: fh.clone(), channels: ch, tree: Node::leaf(if i % 2 == 0 { 5 } else { 1 }), ans: i % 2 == 1, transforms: vec![], toc_rev: false };
+        let d = FrameDesc { alt_tree: None, local_tree: false, fh: fh.clone(), channels: ch, tree: Node::leaf(if i % 2 == 0 { 5 } else { 1 }), ans: i % 2 == 1, transforms: vec![], toc_rev: false };
         if (ftype == FT_REGULAR || ftype == FT_SKIP_PROGRESSIVE) && (fh.is_last || duration != 0) {
             keyframes += 1;
         }
@@ -142,6 +146,31 @@ pub fn corpus() -> Vec<Item> {
         d.fh.group_size_shift = 0;
         d.toc_rev = true;
         out.push(item("rgb-130x130-groups-tocrev", &img, vec![encode_frame(&img, &d)], 1));
+    }
+    // multi-group with a local MA tree in every section (tracked allocations inside pass groups)
+    {
+        let img = ImageHeader::simple(130, 130, false, 8);
+        let mut d = simple_desc(&img, 130, 130, 255, 9);
+        d.fh.group_size_shift = 0;
+        d.local_tree = true;
+        let mut t = Node::leaf(5);
+        for k in 0..9 {
+            t = Node::split(9, k * 7 - 20, Node::leaf((k % 5 + 1) as u32), t);
+        }
+        d.tree = t.clone();
+        out.push(item("rgb-130x130-groups-localtree", &img, vec![encode_frame(&img, &d)], 1));
+        // same, but every other section carries a much larger local tree than its neighbours
+        let mut big = Node::leaf(5);
+        for k in 0..60 {
+            big = Node::split([9, 6, 7, 10, 11][k % 5], (k as i32) * 5 - 150, Node::leaf((k % 5 + 1) as u32), big);
+        }
+        let img2 = ImageHeader::simple(300, 200, false, 8);
+        let mut d2 = simple_desc(&img2, 300, 200, 255, 10);
+        d2.fh.group_size_shift = 0;
+        d2.local_tree = true;
+        d2.tree = Node::leaf(5);
+        d2.alt_tree = Some(big);
+        out.push(item("rgb-300x200-groups-unequal-localtrees", &img2, vec![encode_frame(&img2, &d2)], 1));
     }
     // squeeze + 2 passes, multi-section
     {
